@@ -514,6 +514,54 @@ func Run(r *mc.Run) {
 		return true
 	})
 
+	// 3b: selection on fields larger than the product reaches (many relations, many alternatives in one relation)
+	var largeSel []PossIn
+	for _, n := range []int{8, 9, 16, 17, 32, 33, 64, 65, 100} {
+		for _, a := range archs {
+			for nm := 0; nm < 3; nm++ {
+				var many [][]int // n relations, shapes cycling, 1..3 alternatives each
+				for i := 0; i < n; i++ {
+					rel := []int{(i*7 + 3) % ns}
+					if i%3 != 0 {
+						rel = append(rel, (i*5+1)%ns)
+					}
+					if i%4 == 1 {
+						rel = append(rel, (i+2)%ns)
+					}
+					many = append(many, rel)
+				}
+				largeSel = append(largeSel, PossIn{many, a, nm})
+				// one relation of n alternatives of which only the last one / only the middle one is admitted everywhere
+				last := make([]int, n)
+				mid := make([]int, n)
+				for i := range last {
+					last[i], mid[i] = 0, 0 // substvars are never selected
+					if i%2 == 1 {
+						last[i], mid[i] = 8, 8 // ":amd64 [!amd64]": not admitted for amd64, admitted elsewhere
+					}
+				}
+				last[n-1] = 1
+				mid[n/2] = 6
+				largeSel = append(largeSel, PossIn{[][]int{{1}, last, {2}}, a, nm}, PossIn{[][]int{mid}, a, nm})
+			}
+		}
+	}
+	r.Scenario("possibility-selection-large", map[string]interface{}{"fields": len(largeSel), "sizes": "8..100 relations; one relation of 8..100 alternatives"}, len(largeSel), func(i int, st *mc.Stats) bool {
+		st.Evals++
+		st.Traces++
+		st.Nontrivial++
+		vs := checkPoss("possibility-selection-large", largeSel[i])
+		for _, v := range vs {
+			st.Violate(v)
+		}
+		if len(vs) == 0 {
+			st.Class("agrees")
+		} else {
+			st.Class("wrong")
+		}
+		return true
+	})
+
 	// 4: SatisfiedBy
 	ops := []string{"<<", "<=", "=", ">=", ">>", "", "<", ">", "==", "!=", "=>", "=<"}
 	r.Scenario("version-constraint", map[string]interface{}{"operators": ops, "valid_versions": len(validVersions), "unparsable_numbers": invalidNumbers}, len(validVersions), func(i int, st *mc.Stats) bool {
@@ -556,7 +604,7 @@ func Replay(scenario string, raw json.RawMessage) []*mc.Violation {
 				return []*mc.Violation{v}
 			}
 		}
-	case "possibility-selection":
+	case "possibility-selection", "possibility-selection-large":
 		var in PossIn
 		if mc.UnmarshalInput(raw, &in) == nil {
 			return checkPoss(scenario, in)
